@@ -58,6 +58,18 @@ def expected_structure(t, nint, also=()):
     return internal, at, caj, ambiguous
 
 
+def real_straddle(t, R, ri, j):
+    """D1 predicate evaluated on the realised coordinates (the first segment as forsys sees it)."""
+    from ..infer import straddle_err
+    r = t.ridges[ri]
+    n = R.n_int[ri]
+    chain = [("J", r.a)] + [("I", ri, k) for k in range(n)] + [("J", r.b)]
+    a, b = (chain[0], chain[1]) if j == r.a else (chain[-1], chain[-2])
+    va, vb = R.vertices[R.vid_of_tok[a]], R.vertices[R.vid_of_tok[b]]
+    ch = complex(vb.x - va.x, vb.y - va.y)
+    return straddle_err(t.tangent(ri, j), ch)
+
+
 def check_case(p, ctx):
     import forsys as fs
     stats = {}
@@ -65,6 +77,8 @@ def check_case(p, ctx):
     for k, v in stats.items():
         ctx.count(k, v)
     R = realise(t, nint, gen.lab_of(p))
+    if gen.snap_chord_exact(t, R, p.get("pose")):
+        ctx.count("first-segment-exactly-axis-parallel")
     frame = make_frame(R)
     fsys = call(fs.ForSys, {0: frame})
     kw = dict(when=0, metadata={"ignore_four": p["ignore_four"]}, circle_fit_method=p["fit"])
@@ -135,7 +149,7 @@ def check_case(p, ctx):
                 nearaxis = True
             if tg.real == 0 or tg.imag == 0:
                 exactzero = True
-            if gen.straddle_error(t, ri, j, nint[ri]) > tol / 2:
+            if real_straddle(t, R, ri, j) > tol / 2:
                 d1 += 1
                 continue
             err = max(abs(M[r0, c] - tg.real), abs(M[r0 + 1, c] - tg.imag))
